@@ -79,7 +79,7 @@ Proof. intros H. unfold balance. rewrite !count_if_snoc. destruct (is_open_ok nm
 
 (* ---------- the refinement invariant ---------- *)
 Definition Inv (s : cstate) (pre : list titem) : Prop :=
-  dead s = false /\ ref_nil s = false /\
+  dead s = false /\ ref_nil s = false /\ opened_nil s = false /\ nd_nil s = false /\
   (forall nm, count_if (is_close_ok nm) pre <= count_if (is_open_ok nm) pre) /\
   (forall nm, count_of nm s = balance nm pre) /\
   (forall nm, alookup nm (opened s) = if 0 <? balance nm pre then cur nm pre else None) /\
@@ -101,16 +101,16 @@ Lemma step_sound s pre o s' r ev :
   Inv s pre -> by_name_op o = true -> cstep s o = (s', r, ev) ->
   step_ok pre (o, r, ev) = true /\ Inv s' (pre ++ [(o, r, ev)]).
 Proof.
-  intros (Id & In_ & Ile & Ic & Io & Icur & Ih & Ind & Iu) Hb. unfold cstep. rewrite Id.
+  intros (Id & In_ & Ion & Indn & Ile & Ic & Io & Icur & Ih & Ind & Iu) Hb. unfold cstep. rewrite Id.
   destruct o as [name fail|name|name|uid|uid]; try discriminate Hb; clear Hb.
   - (* OpenDB *)
-    unfold open_db, ref_incr. rewrite In_, (Io name), (Ic name).
+    unfold open_db, ref_incr. rewrite Indn, In_, Ion, (Io name), (Ic name).
     destruct (0 <? balance name pre) eqn:Hpos.
     + (* cached *)
       destruct (cur name pre) as [u|] eqn:Hc; [|exfalso; apply (Icur name); [lia | exact Hc]].
       intros [= <- <- <-]. split.
       { cbn [step_ok]. rewrite Hpos, Hc. cbn [cres_eqb uevents_eqb]. rewrite N.eqb_refl. reflexivity. }
-      unfold Inv. cbn [dead ref_nil opened refc notdropped handles next_uid].
+      unfold Inv. cbn [dead ref_nil opened_nil nd_nil opened refc notdropped handles next_uid].
       repeat split; auto.
       * intros nm. rewrite !count_if_snoc. cbn [is_close_ok]. specialize (Ile nm). destruct (is_open_ok nm _); lia.
       * intros nm. rewrite balance_snoc by apply Ile. cbn [is_open_ok is_close_ok]. unfold count_of; cbn [refc].
@@ -137,7 +137,7 @@ Proof.
       * (* underlying error *)
         intros [= <- <- <-]. split.
         { cbn [step_ok]. rewrite Hpos. cbn [cres_eqb uevents_eqb uevent_eqb]. rewrite N.eqb_refl. reflexivity. }
-        unfold Inv. cbn [dead ref_nil opened refc notdropped handles next_uid].
+        unfold Inv. cbn [dead ref_nil opened_nil nd_nil opened refc notdropped handles next_uid].
         repeat split; auto.
         -- intros nm. rewrite !count_if_snoc. cbn [is_close_ok is_open_ok]. specialize (Ile nm). lia.
         -- intros nm. rewrite balance_snoc by apply Ile. cbn [is_open_ok is_close_ok]. change (count_of nm _) with (count_of nm s). rewrite (Ic nm). lia.
@@ -159,7 +159,7 @@ Proof.
         split.
         { cbn [step_ok]. rewrite Hpos, Hfresh. cbn [negb uevents_eqb uevent_eqb andb]. rewrite !N.eqb_refl. reflexivity. }
         assert (Hb0 : balance name pre = 0) by lia.
-        unfold Inv. cbn [dead ref_nil opened refc notdropped handles next_uid].
+        unfold Inv. cbn [dead ref_nil opened_nil nd_nil opened refc notdropped handles next_uid].
         repeat split; auto.
         -- intros nm. rewrite !count_if_snoc. cbn [is_close_ok]. specialize (Ile nm). destruct (is_open_ok nm _); lia.
         -- intros nm. rewrite balance_snoc by apply Ile. cbn [is_open_ok is_close_ok]. unfold count_of; cbn [refc].
@@ -204,7 +204,7 @@ Proof.
         -- (* last close: the underlying store is closed *)
            intros [= <- <- <-]. split.
            { cbn [step_ok]. rewrite Hc, H0, H1. cbn [cres_eqb uevents_eqb uevent_eqb]. rewrite N.eqb_refl. reflexivity. }
-           unfold Inv. cbn [dead ref_nil opened refc notdropped handles next_uid].
+           unfold Inv. cbn [dead ref_nil opened_nil nd_nil opened refc notdropped handles next_uid].
            repeat split; auto.
            ++ intros nm. rewrite !count_if_snoc. cbn [is_close_ok is_open_ok]. specialize (Ile nm).
               destruct (N.eq_dec nm name) as [->|Hne].
@@ -228,7 +228,7 @@ Proof.
         -- (* still referenced: count down *)
            intros [= <- <- <-]. split.
            { cbn [step_ok]. rewrite Hc, H0, H1. reflexivity. }
-           unfold Inv. cbn [dead ref_nil opened refc notdropped handles next_uid].
+           unfold Inv. cbn [dead ref_nil opened_nil nd_nil opened refc notdropped handles next_uid].
            repeat split; auto.
            ++ intros nm. rewrite !count_if_snoc. cbn [is_close_ok is_open_ok]. specialize (Ile nm).
               destruct (N.eq_dec nm name) as [->|Hne].
@@ -266,7 +266,7 @@ Proof.
     rewrite (Ih name). destruct (cur name pre) as [u|] eqn:Hc.
     + unfold drop_h. rewrite (Ind name). intros [= <- <- <-]. split.
       { cbn [step_ok]. rewrite Hc. cbn [cres_eqb andb]. destruct (droppable name pre); cbn [uevents_eqb uevent_eqb]; [rewrite N.eqb_refl|]; reflexivity. }
-      unfold Inv. cbn [dead ref_nil opened refc notdropped handles next_uid].
+      unfold Inv. cbn [dead ref_nil opened_nil nd_nil opened refc notdropped handles next_uid].
       repeat split; auto.
       * intros nm. rewrite !count_if_snoc. cbn [is_close_ok is_open_ok]. specialize (Ile nm). lia.
       * intros nm. rewrite balance_snoc by apply Ile. cbn [is_open_ok is_close_ok]. unfold count_of; cbn [refc]. fold (count_of nm s). rewrite (Ic nm). lia.
@@ -457,13 +457,15 @@ Lemma over_close_touches_nothing s u name :
 Proof. intros H. unfold close_h. rewrite H. reflexivity. Qed.
 
 (* no history whatsoever (stale handles included) makes the repaired producer panic *)
+Definition alive (s : cstate) : Prop :=
+  dead s = false /\ ref_nil s = false /\ opened_nil s = false /\ nd_nil s = false.
+
 Lemma alive_step s o s' r ev :
-  dead s = false -> ref_nil s = false -> cstep s o = (s', r, ev) ->
-  dead s' = false /\ ref_nil s' = false /\ r <> RPanic /\ r <> RDead.
+  alive s -> cstep s o = (s', r, ev) -> alive s' /\ r <> RPanic /\ r <> RDead.
 Proof.
-  intros Hd Hn. unfold cstep. rewrite Hd.
+  intros (Hd & Hn & Ho & Hnd). unfold cstep. rewrite Hd. unfold alive.
   destruct o as [name f|name|name|uid|uid].
-  - unfold open_db, ref_incr. rewrite Hn. destruct (alookup name (opened s)); [|destruct f]; intros [= <- <- <-]; repeat split; auto; discriminate.
+  - unfold open_db, ref_incr. rewrite Hnd, Hn, Ho. destruct (alookup name (opened s)); [|destruct f]; intros [= <- <- <-]; repeat split; auto; discriminate.
   - destruct (newest_handle name (handles s)); [|intros [= <- <- <-]; repeat split; auto; discriminate].
     unfold close_h. destruct (count_of name s =? 0); [|destruct (count_of name s =? 1)]; intros [= <- <- <-]; repeat split; auto; discriminate.
   - destruct (newest_handle name (handles s)); [|intros [= <- <- <-]; repeat split; auto; discriminate].
@@ -475,15 +477,18 @@ Proof.
 Qed.
 
 Theorem never_panics ops : forall s s' tr,
-  dead s = false -> ref_nil s = false -> crun s ops = (s', tr) ->
+  alive s -> crun s ops = (s', tr) ->
   forall o r ev, In (o, r, ev) tr -> r <> RPanic /\ r <> RDead.
 Proof.
-  induction ops as [|o ops IH]; intros s s' tr Hd Hn; cbn [crun].
+  induction ops as [|o ops IH]; intros s s' tr Ha; cbn [crun].
   - intros [= <- <-] ? ? ? [].
   - destruct (cstep s o) as [[s1 r1] e1] eqn:S. destruct (crun s1 ops) as [s2 tr2] eqn:R.
-    intros [= <- <-]. destruct (alive_step _ _ _ _ _ Hd Hn S) as (A1 & A2 & A3 & A4).
-    intros o' r' ev' [H|H]; [injection H as <- <- <-; split; assumption | exact (IH _ _ _ A1 A2 R _ _ _ H)].
+    intros [= <- <-]. destruct (alive_step _ _ _ _ _ Ha S) as (A1 & A3 & A4).
+    intros o' r' ev' [H|H]; [injection H as <- <- <-; split; assumption | exact (IH _ _ _ A1 R _ _ _ H)].
 Qed.
+
+Lemma ctors_alive : alive wrap /\ alive wrap_all /\ wrap <> wrap_all.
+Proof. repeat split; discriminate. Qed.
 
 (* ---------- the pinned tree: Wrap without the refCounter map ---------- *)
 Example wrap_old_refuted :
